@@ -7,6 +7,15 @@
 //!   `jop <json>`   the real `json_array_op(&mut state, grid search)` on a whole query STATE (an array
 //!                  with several queries, as left by an earlier plugin), then `json_array_flatten`
 //!                                                                               -> `ok <state> (fok n <json>… | ferr <request>)` | `perr <request json>`
+//!   `flat <json>`  the real `json_array_flatten_in_place(&mut v)` on ANY value          -> `ok <json>` | `perr <request json>`
+//!   `fin <json>`   the real `json_array_flatten(&mut v)` on ANY value                    -> `ok n <json>…` | `perr <request json>`
+//!   `pkg e <json>` / `pkg i <opt json> <opt json>`  the real `package_error` / `package_invariant_error`
+//!                  (all four Some/None combinations)                                    -> the response, its message replaced by "E"
+//!   `msd k <sets>` the real `MultiSet` on ANY vector of vectors — no set, empty sets, one set, very many
+//!                  axes — stopped after at most `k` calls of `next`                      -> `ok <ended> <list of lists>` | `panic`
+//!   `bld <cfg> <json>`  the real `CompassAppBuilder::default().build_input_plugins(cfg)` (grid-search entries,
+//!                  arbitrary parameters, malformed sections) and then `apply_input_plugins` with what was built
+//!                                                                               -> `cerr <variant>` | `built n` + the `pipe` answer
 //! JSON crosses the protocol through `jsonproto::enc` (key order preserved), so the model has to
 //! reproduce the implementation's output textually, key order included.
 //!
@@ -28,13 +37,28 @@
 //!   pipeline/expansion    apply_input_plugins does not return exactly the plugin's expansion
 //!   pipeline/state-flatten  json_array_op over a state of several queries does not return, in order, each
 //!                         query's own expansion (a query without grid section standing for itself)
+//!   multiset/degenerate   MultiSet on no set / an empty set does not yield the Cartesian product ([[]] / nothing)
+//!   multiset/product      MultiSet (any input, bounded run) does not yield the Cartesian product
+//!   response/shape        an error response is not exactly {"request": …, "error": "<text>"} with the request it
+//!                         is about (or the placeholder) and a message that shows the offending JSON
+//!   flatten/one-level     json_array_flatten_in_place is not the one-level concatenation / rejects an array
+//!   flatten/objects       json_array_flatten does not return exactly the elements of an array of objects, or
+//!                         accepts something else
+//!   builder/config        build_input_plugins: wrong number of plugins, or a malformed section accepted
+//!   builder/behaviour     a built grid-search plugin (whatever its parameters) does not behave like the plugin
 use crate::ctx::Ctx;
 use crate::jsonproto::enc;
 use crate::rng::Rng;
 use routee_compass::app::compass::compass_app::apply_input_plugins;
 use routee_compass::plugin::input::default::grid_search::plugin::GridSearchPlugin;
 use routee_compass::plugin::input::input_plugin::InputPlugin;
-use routee_compass::plugin::input::input_plugin_ops::{json_array_flatten, json_array_op};
+use routee_compass::app::compass::config::builders::InputPluginBuilder;
+use routee_compass::app::compass::config::compass_app_builder::CompassAppBuilder;
+use routee_compass::app::compass::config::compass_configuration_error::CompassConfigurationError;
+use routee_compass::plugin::input::default::grid_search::builder::GridSearchBuilder;
+use routee_compass::plugin::input::input_plugin_ops::{
+    json_array_flatten, json_array_flatten_in_place, json_array_op, package_error, package_invariant_error,
+};
 use routee_compass::plugin::input::InputPluginError;
 use routee_compass_core::util::multiset::MultiSet;
 use serde_json::{json, Map, Value};
@@ -654,6 +678,365 @@ fn pipe_case(ctx: &mut Ctx, q: &Value) {
     }
 }
 
+
+// ---------------------------------------------------------------------------------------------
+// coverage follow-up: every function of input_plugin_ops.rs on arbitrary values, MultiSet on every
+// input, the builder from configuration
+
+/// an error response must be exactly {"request": R, "error": "<non-empty text>"}; `shows` are JSON values
+/// the message has to display (pretty-printed)
+fn check_response(ctx: &mut Ctx, idx: usize, resp: &Value, request: &Value, shows: &[&Value]) {
+    let ok_shape = match resp.as_object() {
+        Some(m) => {
+            m.len() == 2
+                && m.keys().map(|k| k.as_str()).collect::<Vec<_>>() == vec!["request", "error"]
+                && m.get("request") == Some(request)
+                && m.get("error").and_then(|e| e.as_str()).map(|t| !t.is_empty()).unwrap_or(false)
+        }
+        None => false,
+    };
+    if !ok_shape {
+        ctx.fail(idx, "response/shape", format!("error response {} is not {{request: {}, error: text}}", clip(&resp.to_string()), clip(&request.to_string())));
+        return;
+    }
+    let text = resp["error"].as_str().unwrap_or("");
+    for v in shows {
+        let pretty = serde_json::to_string_pretty(v).unwrap_or_default();
+        if !text.contains(&pretty) {
+            ctx.fail(idx, "response/shape", format!("error message does not show {}: {}", clip(&v.to_string()), clip(text)));
+        }
+    }
+}
+
+fn placeholder() -> Value {
+    json!({"error": "unable to display query"})
+}
+
+/// the response with its message replaced by "E" (messages are never compared with the model)
+fn canon_response(resp: &Value) -> String {
+    let mut r = resp.clone();
+    if let Some(m) = r.as_object_mut() {
+        if let Some(e) = m.get_mut("error") {
+            if e.is_string() {
+                *e = json!("E");
+            }
+        }
+    }
+    enc(&r)
+}
+
+fn opt_enc(v: &Option<Value>) -> String {
+    match v {
+        None => "n".to_string(),
+        Some(x) => format!("s {}", enc(x)),
+    }
+}
+
+fn pkg_cases(ctx: &mut Ctx, q: &Value, sub: &Value) {
+    // package_error
+    if let Some(idx) = ctx.begin() {
+        let mut qq = q.clone();
+        let resp = package_error(&mut qq, "some message");
+        ctx.emit(idx, format!("pkg e {}", enc(q)), canon_response(&resp));
+        ctx.count("package_error");
+        check_response(ctx, idx, &resp, q, &[]);
+        if resp.get("error") != Some(&json!("some message")) || &qq != q {
+            ctx.fail(idx, "response/shape", format!("package_error changed the message or the query: {}", clip(&resp.to_string())));
+        }
+    }
+    // package_invariant_error, the four combinations
+    for (has_q, has_s) in [(false, false), (false, true), (true, false), (true, true)] {
+        let Some(idx) = ctx.begin() else { continue };
+        let mut qq = q.clone();
+        let mut ss = sub.clone();
+        let oq = if has_q { Some(q.clone()) } else { None };
+        let os = if has_s { Some(sub.clone()) } else { None };
+        let resp = package_invariant_error(if has_q { Some(&mut qq) } else { None }, if has_s { Some(&mut ss) } else { None });
+        ctx.emit(idx, format!("pkg i {} {}", opt_enc(&oq), opt_enc(&os)), canon_response(&resp));
+        ctx.count(&format!("package_invariant_error:{}{}", if has_q { "q" } else { "-" }, if has_s { "s" } else { "-" }));
+        let request = if has_q { q.clone() } else { placeholder() };
+        let mut shows: Vec<&Value> = vec![];
+        if has_q {
+            shows.push(q);
+        }
+        if has_s {
+            shows.push(sub);
+        }
+        check_response(ctx, idx, &resp, &request, &shows);
+        ctx.nontrivial(&format!("pkg {} {} {}", has_q, has_s, enc(q)));
+    }
+}
+
+/// `json_array_flatten_in_place` and `json_array_flatten` called directly on any value
+fn flat_cases(ctx: &mut Ctx, v: &Value, branch: &str) {
+    if let Some(idx) = ctx.begin() {
+        let mut w = v.clone();
+        let r = std::panic::catch_unwind(std::panic::AssertUnwindSafe(|| {
+            let r = json_array_flatten_in_place(&mut w);
+            (r, w)
+        }));
+        let line = match &r {
+            Err(_) => "panic".to_string(),
+            Ok((Ok(()), w)) => format!("ok {}", enc(w)),
+            Ok((Err(resp), _)) => format!("perr {}", enc(resp.get("request").unwrap_or(&Value::Null))),
+        };
+        ctx.emit(idx, format!("flat {}", enc(v)), line);
+        ctx.count(&format!("flatten_in_place:{}", branch));
+        match (&r, v.as_array()) {
+            (Err(_), _) => ctx.fail(idx, "grid/panic", format!("json_array_flatten_in_place panicked on {}", clip(&v.to_string()))),
+            (Ok((Ok(()), w)), Some(a)) => {
+                // exactly one level: an array element stands for its elements, anything else for itself
+                let mut want: Vec<Value> = vec![];
+                for e in a {
+                    match e {
+                        Value::Array(sub) => want.extend(sub.iter().cloned()),
+                        other => want.push(other.clone()),
+                    }
+                }
+                if w.as_array() != Some(&want) {
+                    ctx.fail(idx, "flatten/one-level", format!("{} flattened to {}", clip(&v.to_string()), clip(&w.to_string())));
+                }
+                if a.iter().any(|e| e.is_array()) {
+                    ctx.nontrivial(&format!("flat {}", enc(v)));
+                }
+            }
+            (Ok((Ok(()), _)), None) => ctx.fail(idx, "flatten/one-level", format!("a state that is not an array was accepted: {}", clip(&v.to_string()))),
+            (Ok((Err(resp), w)), None) => {
+                check_response(ctx, idx, resp, v, &[v]);
+                if w != v {
+                    ctx.fail(idx, "flatten/one-level", format!("a rejected state was modified: {}", clip(&v.to_string())));
+                }
+            }
+            (Ok((Err(_), _)), Some(_)) => ctx.fail(idx, "flatten/one-level", format!("an array state was rejected: {}", clip(&v.to_string()))),
+        }
+    }
+    if let Some(idx) = ctx.begin() {
+        let mut w = v.clone();
+        let r = std::panic::catch_unwind(std::panic::AssertUnwindSafe(|| json_array_flatten(&mut w)));
+        let line = match &r {
+            Err(_) => "panic".to_string(),
+            Ok(Ok(qs)) => {
+                let mut s = format!("ok {}", qs.len());
+                for x in qs {
+                    s.push(' ');
+                    s.push_str(&enc(x));
+                }
+                s
+            }
+            Ok(Err(resp)) => format!("perr {}", enc(resp.get("request").unwrap_or(&Value::Null))),
+        };
+        ctx.emit(idx, format!("fin {}", enc(v)), line);
+        ctx.count(&format!("flatten_final:{}", branch));
+        let all_objects = v.as_array().map(|a| a.iter().all(|e| e.is_object()));
+        match (&r, all_objects) {
+            (Err(_), _) => ctx.fail(idx, "grid/panic", format!("json_array_flatten panicked on {}", clip(&v.to_string()))),
+            (Ok(Ok(qs)), Some(true)) => {
+                if Some(qs) != v.as_array() {
+                    ctx.fail(idx, "flatten/objects", format!("{} gave {} queries", clip(&v.to_string()), qs.len()));
+                }
+            }
+            (Ok(Ok(_)), _) => ctx.fail(idx, "flatten/objects", format!("a state that is not an array of objects was accepted: {}", clip(&v.to_string()))),
+            (Ok(Err(_)), Some(true)) => ctx.fail(idx, "flatten/objects", format!("an array of objects was rejected: {}", clip(&v.to_string()))),
+            (Ok(Err(resp)), Some(false)) => {
+                // some element is not an object: the message shows one of them (the code shows the last)
+                check_response(ctx, idx, resp, &placeholder(), &[]);
+                let text = resp["error"].as_str().unwrap_or("").to_string();
+                let shown = v.as_array().unwrap().iter().filter(|e| !e.is_object()).any(|e| text.contains(&serde_json::to_string_pretty(e).unwrap_or_default()));
+                if !shown {
+                    ctx.fail(idx, "response/shape", format!("invariant error shows none of the offending elements: {}", clip(&text)));
+                }
+            }
+            (Ok(Err(resp)), None) => check_response(ctx, idx, resp, v, &[v]),
+        }
+    }
+}
+
+/// Cartesian product by plain recursion: [[]] for no set, nothing when a set is empty
+fn product_of(sets: &[Vec<usize>]) -> Vec<Vec<usize>> {
+    let mut out: Vec<Vec<usize>> = vec![vec![]];
+    for s in sets {
+        let mut next = Vec::with_capacity(out.len() * s.len());
+        for prefix in &out {
+            for x in s {
+                let mut p = prefix.clone();
+                p.push(*x);
+                next.push(p);
+            }
+        }
+        out = next;
+    }
+    out
+}
+
+/// the real MultiSet on ANY input, stopped after at most `k` calls of `next` (so a degenerate input
+/// can neither hang nor exhaust memory), inside catch_unwind
+fn msd_case(ctx: &mut Ctx, sets: &Vec<Vec<usize>>, k: usize, branch: &str) {
+    let Some(idx) = ctx.begin() else { return };
+    let r = std::panic::catch_unwind(|| {
+        let mut it = MultiSet::from(sets);
+        let mut out: Vec<Vec<usize>> = vec![];
+        let mut ended = false;
+        for _ in 0..k {
+            match it.next() {
+                Some(c) => out.push(c),
+                None => {
+                    ended = true;
+                    break;
+                }
+            }
+        }
+        (out, ended)
+    });
+    let case = format!("msd {} {}", k, nat_lists(sets));
+    ctx.count(&format!("multiset_bounded:{}", branch));
+    let degenerate = sets.is_empty() || sets.iter().any(|s| s.is_empty());
+    let key = if degenerate { "multiset/degenerate" } else { "multiset/product" };
+    match r {
+        Err(_) => {
+            ctx.emit(idx, case, "panic".to_string());
+            ctx.fail(idx, key, format!("MultiSet panicked on {:?}", sets));
+        }
+        Ok((out, ended)) => {
+            ctx.emit(idx, case, format!("ok {} {}", if ended { 1 } else { 0 }, nat_lists(&out)));
+            // the product has at most `limit` elements here, so it can be enumerated
+            let total: u128 = sets.iter().fold(1u128, |acc, s| acc.saturating_mul(s.len() as u128));
+            if total < k as u128 {
+                let mut want = product_of(sets);
+                let mut got = out.clone();
+                want.sort();
+                got.sort();
+                if !ended || want != got {
+                    ctx.fail(idx, key, format!("MultiSet over {:?}: {} combinations in {} calls (ended: {}), the product has {}", clip(&format!("{:?}", sets)), out.len(), k, ended, want.len()));
+                }
+            } else {
+                // cut off: k distinct members of the product
+                let distinct: HashSet<&Vec<usize>> = out.iter().collect();
+                let member = |c: &Vec<usize>| c.len() == sets.len() && c.iter().zip(sets.iter()).all(|(x, s)| s.contains(x));
+                let sets_distinct = sets.iter().all(|s| s.iter().collect::<HashSet<_>>().len() == s.len());
+                if ended || out.len() != k || !out.iter().all(member) || (sets_distinct && distinct.len() != out.len()) {
+                    ctx.fail(idx, key, format!("MultiSet over {}: first {} calls gave {} combinations (ended: {})", clip(&format!("{:?}", sets)), k, out.len(), ended));
+                }
+            }
+            if out.len() >= 2 || degenerate {
+                ctx.nontrivial(&format!("msd {:?}", sets));
+            }
+        }
+    }
+}
+
+fn cfg_variant(e: &CompassConfigurationError) -> &'static str {
+    match e {
+        CompassConfigurationError::ExpectedFieldForComponent(_, _) => "ExpectedFieldForComponent",
+        CompassConfigurationError::ExpectedFieldWithType(_, _) => "ExpectedFieldWithType",
+        CompassConfigurationError::UnknownModelNameForComponent(_, _, _) => "UnknownModelNameForComponent",
+        _ => "Other",
+    }
+}
+
+fn pipe_line(r: &std::thread::Result<Result<Vec<Value>, Value>>) -> String {
+    match r {
+        Err(_) => "panic".to_string(),
+        Ok(Ok(qs)) => {
+            let mut s = format!("ok {}", qs.len());
+            for x in qs {
+                s.push(' ');
+                s.push_str(&enc(x));
+            }
+            s
+        }
+        Ok(Err(resp)) => format!("perr {}", enc(resp.get("request").unwrap_or(&Value::Null))),
+    }
+}
+
+/// the plugin section of a configuration -> plugins -> the pipeline on one query.
+/// Only `grid_search` entries and unknown type names are generated (the other builders need files).
+fn bld_case(ctx: &mut Ctx, cfg: &Value, q: &Value, branch: &str) {
+    if matches!(shape(q), Shape::Degenerate { no_axis: true }) {
+        return;
+    }
+    let Some(idx) = ctx.begin() else { return };
+    let built = std::panic::catch_unwind(std::panic::AssertUnwindSafe(|| CompassAppBuilder::default().build_input_plugins(cfg)));
+    ctx.count(&format!("builder:{}", branch));
+    let case = format!("bld {} {}", enc(cfg), enc(q));
+    // what a well-formed section asks for, read independently of the builder
+    let wanted: Option<usize> = cfg.get("input_plugins").and_then(|v| v.as_array()).and_then(|a| {
+        if a.iter().all(|e| e.get("type").and_then(|t| t.as_str()) == Some(GRID)) {
+            Some(a.len())
+        } else {
+            None
+        }
+    });
+    match built {
+        Err(_) => {
+            ctx.emit(idx, case, "panic".to_string());
+            ctx.fail(idx, "builder/config", format!("build_input_plugins panicked on {}", clip(&cfg.to_string())));
+        }
+        Ok(Err(e)) => {
+            ctx.emit(idx, case, format!("cerr {}", cfg_variant(&e)));
+            if wanted.is_some() {
+                ctx.fail(idx, "builder/config", format!("a well-formed plugin section was rejected ({}): {}", e, clip(&cfg.to_string())));
+            }
+        }
+        Ok(Ok(plugins)) => {
+            let r = std::panic::catch_unwind(std::panic::AssertUnwindSafe(|| apply_input_plugins(q, &plugins)));
+            ctx.emit(idx, case, format!("built {} {}", plugins.len(), pipe_line(&r)));
+            match wanted {
+                None => ctx.fail(idx, "builder/config", format!("a malformed plugin section was accepted: {}", clip(&cfg.to_string()))),
+                Some(n) if n != plugins.len() => ctx.fail(idx, "builder/config", format!("{} plugins built from {} entries", plugins.len(), n)),
+                Some(n) => {
+                    // whatever the parameters and however often it is listed, the answer is the one of a
+                    // single GridSearchPlugin (a generated query has no grid section left); none listed:
+                    // the query alone
+                    let reference: Vec<Arc<dyn InputPlugin>> = if n == 0 { vec![] } else { vec![Arc::new(GridSearchPlugin {})] };
+                    let want = std::panic::catch_unwind(std::panic::AssertUnwindSafe(|| apply_input_plugins(q, &reference)));
+                    let same = match (&r, &want) {
+                        (Ok(Ok(a)), Ok(Ok(b))) => a == b && a.iter().map(enc).collect::<Vec<_>>() == b.iter().map(enc).collect::<Vec<_>>(),
+                        (Ok(Err(a)), Ok(Err(b))) => a.get("request") == b.get("request"),
+                        _ => false,
+                    };
+                    if !same {
+                        ctx.fail(idx, "builder/behaviour", format!("{} configured grid-search plugin(s) answer {} differently from GridSearchPlugin", n, clip(&q.to_string())));
+                    }
+                    if n >= 1 {
+                        ctx.nontrivial(&format!("bld {} {}", n, enc(q)));
+                    }
+                }
+            }
+        }
+    }
+}
+
+/// `GridSearchBuilder {}.build(params)` directly: never fails, whatever the parameters
+fn direct_builder_case(ctx: &mut Ctx, params: &Value, q: &Value) {
+    if matches!(shape(q), Shape::Degenerate { no_axis: true }) {
+        return;
+    }
+    let Some(idx) = ctx.begin() else { return };
+    let cfg = json!({"input_plugins": [params]});
+    // same model arm as `bld` when params carries type = grid_search; the builder itself never looks
+    let mut p = params.clone();
+    if let Some(m) = p.as_object_mut() {
+        m.insert("type".to_string(), json!(GRID));
+    } else {
+        p = json!({"type": GRID});
+    }
+    let _ = cfg;
+    let cfg = json!({"input_plugins": [p]});
+    let r = std::panic::catch_unwind(std::panic::AssertUnwindSafe(|| GridSearchBuilder {}.build(params)));
+    ctx.count("builder:direct");
+    match r {
+        Ok(Ok(plugin)) => {
+            let plugins = vec![plugin];
+            let r = std::panic::catch_unwind(std::panic::AssertUnwindSafe(|| apply_input_plugins(q, &plugins)));
+            ctx.emit(idx, format!("bld {} {}", enc(&cfg), enc(q)), format!("built 1 {}", pipe_line(&r)));
+        }
+        _ => {
+            ctx.emit(idx, format!("bld {} {}", enc(&cfg), enc(q)), "cerr Other".to_string());
+            ctx.fail(idx, "builder/config", format!("GridSearchBuilder::build failed on parameters {}", clip(&params.to_string())));
+        }
+    }
+}
+
 fn corpus() -> Vec<(&'static str, Value)> {
     vec![
         // witnesses of the fixed finding (90097cd): must be answered with an error, not panic / hang
@@ -701,6 +1084,27 @@ fn corpus() -> Vec<(&'static str, Value)> {
         ("corpus_shape", json!({"grid_search": {"a": [1], "b": [2], "c": [3]}})),
         ("corpus_shape", json!({"grid_search": {"a": [1, 3], "b": [2], "c": [5, 7, 9]}})),
         ("corpus_shape", json!({"q": true, "grid_search": {"a": [1], "b": [1, 2], "c": [1], "d": [1, 2, 3], "e": [1], "f": [1, 2]}})),
+        // very many axes: 40 single-option axes (one query), 10 two-option axes (1024 queries)
+        ("corpus_many_axes", Value::Object({
+            let mut q = Map::new();
+            q.insert("keep".to_string(), json!(1));
+            let mut sec = Map::new();
+            for i in 0..40 {
+                sec.insert(format!("axis{:02}", i), if i % 3 == 0 { json!([{format!("o{}", i): i}]) } else { json!([i]) });
+            }
+            q.insert(GRID.to_string(), Value::Object(sec));
+            q
+        })),
+        ("corpus_many_axes", Value::Object({
+            let mut q = Map::new();
+            let mut sec = Map::new();
+            for i in 0..10 {
+                sec.insert(format!("b{}", i), json!([0, 1]));
+            }
+            q.insert(GRID.to_string(), Value::Object(sec));
+            q.insert("after".to_string(), json!("x"));
+            q
+        })),
         // no grid section / not an object
         ("corpus_passthrough", json!({"origin_x": 1.5, "destination_x": 2, "nested": {"grid_search": {"a": [1]}}})),
         ("corpus_passthrough", json!({})),
@@ -797,6 +1201,202 @@ pub fn run(ctx: &mut Ctx) -> &'static str {
     jop_case(ctx, &json!([[[{"a": 1}]], {"b": 2}]), "corpus_nested");
     jop_case(ctx, &json!({"a": 1}), "corpus_not_array");
     jop_case(ctx, &json!([{"a": 1}, 5]), "corpus_scalar_element");
+    // --- coverage follow-up: hand-written cases ---
+    // MultiSet on every input: no set (witness: used to yield [] for ever), empty sets (witness: used to
+    // panic), one set, a single combination, very many axes
+    msd_case(ctx, &vec![], 50, "corpus_no_set");
+    msd_case(ctx, &vec![vec![]], 50, "corpus_empty_set");
+    msd_case(ctx, &vec![vec![1, 2], vec![]], 50, "corpus_empty_set");
+    msd_case(ctx, &vec![vec![], vec![1, 2]], 50, "corpus_empty_set");
+    msd_case(ctx, &vec![vec![1, 2], vec![], vec![3]], 50, "corpus_empty_set");
+    msd_case(ctx, &vec![vec![7]], 50, "corpus_one_set");
+    msd_case(ctx, &vec![vec![7, 8, 9]], 50, "corpus_one_set");
+    msd_case(ctx, &vec![vec![7, 8, 9]], 2, "corpus_cut_off");
+    msd_case(ctx, &vec![vec![0]; 64], 50, "corpus_many_axes");
+    msd_case(ctx, &(0..40).map(|i| if i % 13 == 0 { vec![0, 1] } else { vec![i] }).collect(), 50, "corpus_many_axes");
+    msd_case(ctx, &vec![vec![0, 1]; 200], 300, "corpus_many_axes");
+    msd_case(ctx, &vec![vec![1, 1], vec![2, 2]], 50, "corpus_repeated_values");
+    // input_plugin_ops on arbitrary values
+    for v in [
+        json!([]), json!([[]]), json!([[], []]), json!([{"a": 1}]), json!([[{"a": 1}], {"b": 2}]), json!([[[{"a": 1}]], 5, "s", null]),
+        json!([1, [2, [3, [4]]]]), json!({"a": [1]}), json!(null), json!(7), json!("text"), json!(true),
+        json!([{"a": 1}, [], {"b": 2}]), json!([null, {"a": 1}]), json!([{"a": 1}, 1.5, {"b": 2}, "last"]),
+    ] {
+        flat_cases(ctx, &v, "corpus");
+    }
+    for (q, sub) in [
+        (json!({"origin_x": 1.5, "grid_search": {"a": [1, 2]}}), json!(5)),
+        (json!([{"a": 1}, 2]), json!({"k": "v"})),
+        (json!(null), json!(null)),
+        (json!("a \"quoted\" string\nwith a new line"), json!([1, [2, {"x": []}]])),
+        (json!({}), json!([])),
+    ] {
+        pkg_cases(ctx, &q, &sub);
+    }
+    // the builder from configuration
+    let gq = json!({"k": 0, "grid_search": {"x": [1, 2], "y": ["p", {"z": 1}]}, "last": true});
+    bld_case(ctx, &json!({"input_plugins": [{"type": "grid_search"}]}), &gq, "corpus_one");
+    bld_case(ctx, &json!({"input_plugins": [{"type": "grid_search", "anything": [1, 2], "grid_search": {"a": [1]}}]}), &gq, "corpus_parameters");
+    bld_case(ctx, &json!({"input_plugins": [{"type": "grid_search"}, {"type": "grid_search"}, {"type": "grid_search"}]}), &gq, "corpus_repeated");
+    bld_case(ctx, &json!({"input_plugins": []}), &gq, "corpus_none");
+    bld_case(ctx, &json!({"input_plugins": [{"type": "grid_search"}], "output_plugins": 5}), &json!({"a": 1}), "corpus_one");
+    bld_case(ctx, &json!({"input_plugins": [{"type": "grid_search"}]}), &json!([1, 2]), "corpus_one");
+    bld_case(ctx, &json!({}), &gq, "corpus_malformed");
+    bld_case(ctx, &json!({"input_plugins": {"type": "grid_search"}}), &gq, "corpus_malformed");
+    bld_case(ctx, &json!({"input_plugins": "grid_search"}), &gq, "corpus_malformed");
+    bld_case(ctx, &json!({"input_plugins": null}), &gq, "corpus_malformed");
+    bld_case(ctx, &json!([{"type": "grid_search"}]), &gq, "corpus_malformed");
+    bld_case(ctx, &json!({"input_plugins": [{"kind": "grid_search"}]}), &gq, "corpus_malformed");
+    bld_case(ctx, &json!({"input_plugins": [{"type": 5}]}), &gq, "corpus_malformed");
+    bld_case(ctx, &json!({"input_plugins": [{"type": ["grid_search"]}]}), &gq, "corpus_malformed");
+    bld_case(ctx, &json!({"input_plugins": ["grid_search"]}), &gq, "corpus_malformed");
+    bld_case(ctx, &json!({"input_plugins": [{"type": "grid_search"}, {"type": "Grid_Search"}]}), &gq, "corpus_malformed");
+    bld_case(ctx, &json!({"input_plugins": [{"type": "no_such_plugin"}, {"type": "grid_search"}]}), &gq, "corpus_malformed");
+    bld_case(ctx, &json!({"input_plugins": [{"type": ""}]}), &gq, "corpus_malformed");
+    direct_builder_case(ctx, &json!(null), &gq);
+    direct_builder_case(ctx, &json!({"type": "something else", "x": [1]}), &gq);
+    direct_builder_case(ctx, &json!([1, 2, 3]), &json!({"a": 1}));
+
+    // --- coverage follow-up: generated cases ---
+    let n_cov = ctx.n(1500, 15000);
+    for k in 0..n_cov {
+        let mut rng = Rng::for_case(ctx.seed, 171717, k as u64);
+        match k % 6 {
+            0 | 1 => {
+                // MultiSet on any input
+                let shape_kind = rng.below(10);
+                let m = match shape_kind {
+                    0 => 0,
+                    1 => 1,
+                    2 => 8 + rng.below(if ctx.quick() { 40 } else { 120 }),
+                    _ => 1 + rng.below(6),
+                };
+                let many = shape_kind == 2;
+                let mut sets: Vec<Vec<usize>> = (0..m)
+                    .map(|_| {
+                        let len = if many { 1 + (rng.below(8) == 0) as usize } else { 1 + rng.below(4) };
+                        (0..len).map(|j| if rng.chance(1, 6) { rng.below(3) } else { 10 * j + rng.below(10) }).collect()
+                    })
+                    .collect();
+                let mut branch = match shape_kind {
+                    0 => "no_set",
+                    1 => "one_set",
+                    2 => "many_axes",
+                    _ => "regular",
+                };
+                if m > 0 && rng.chance(1, 5) {
+                    let e = 1 + rng.below(2.min(m));
+                    for _ in 0..e {
+                        let i = rng.below(m);
+                        sets[i].clear();
+                    }
+                    branch = "empty_set";
+                }
+                let limit = if rng.chance(1, 6) { rng.below(6) } else { 300 };
+                msd_case(ctx, &sets, limit, branch);
+            }
+            2 => {
+                // flatten functions on arbitrary values: mostly arrays of objects / arrays / scalars
+                let v = if rng.chance(1, 6) {
+                    value(&mut rng, 2)
+                } else {
+                    let n = rng.below(5);
+                    let flavour = rng.below(4);
+                    Value::Array(
+                        (0..n)
+                            .map(|_| match if flavour == 0 { 0 } else { rng.below(flavour + 1) } {
+                                0 => Value::Object(object(&mut rng, 1, 3)),
+                                1 => Value::Array((0..rng.below(3)).map(|_| if rng.chance(2, 3) { Value::Object(object(&mut rng, 1, 2)) } else { value(&mut rng, 1) }).collect()),
+                                _ => value(&mut rng, 2),
+                            })
+                            .collect(),
+                    )
+                };
+                let branch = match &v {
+                    Value::Array(a) if a.iter().all(|e| e.is_object()) => "array_of_objects",
+                    Value::Array(a) if a.iter().any(|e| e.is_array()) => "nested_arrays",
+                    Value::Array(_) => "array_with_scalars",
+                    _ => "not_an_array",
+                };
+                flat_cases(ctx, &v, branch);
+            }
+            3 => {
+                let q = value(&mut rng, 3);
+                let sub = value(&mut rng, 2);
+                pkg_cases(ctx, &q, &sub);
+            }
+            _ => {
+                // plugin section of a configuration
+                let n = rng.below(4);
+                let mut entries: Vec<Value> = (0..n)
+                    .map(|_| {
+                        let mut m = object(&mut rng, 1, 3);
+                        m.insert("type".to_string(), json!(GRID));
+                        if rng.chance(1, 2) {
+                            // keep `type` first, as a TOML table usually has it
+                            let mut m2 = Map::new();
+                            m2.insert("type".to_string(), json!(GRID));
+                            for (k, v) in m.iter() {
+                                m2.insert(k.clone(), v.clone());
+                            }
+                            m = m2;
+                        }
+                        Value::Object(m)
+                    })
+                    .collect();
+                let mut cfg = Map::new();
+                if rng.chance(1, 3) {
+                    cfg.insert("output_plugins".to_string(), json!([]));
+                }
+                let mut branch = if n == 0 { "none" } else if n == 1 { "one" } else { "repeated" };
+                match rng.below(12) {
+                    0 => {
+                        // no input_plugins key
+                        branch = "malformed";
+                        cfg.insert("input_plugin".to_string(), Value::Array(entries.clone()));
+                    }
+                    1 => {
+                        branch = "malformed";
+                        cfg.insert("input_plugins".to_string(), value(&mut rng, 1));
+                        if cfg["input_plugins"].is_array() {
+                            cfg.insert("input_plugins".to_string(), json!({"type": GRID}));
+                        }
+                    }
+                    2 => {
+                        branch = "malformed";
+                        let bad = match rng.below(5) {
+                            0 => json!({"type": rng.below(9)}),
+                            1 => json!({"typ": GRID}),
+                            2 => json!({"type": *rng.pick(&["gridsearch", "grid-search", "GRID_SEARCH", "grid_search ", "no_such_plugin", ""])}),
+                            3 => scalar(&mut rng),
+                            _ => json!({"type": null}),
+                        };
+                        let at = rng.below(entries.len() + 1);
+                        entries.insert(at, bad);
+                        cfg.insert("input_plugins".to_string(), Value::Array(entries.clone()));
+                    }
+                    _ => {
+                        cfg.insert("input_plugins".to_string(), Value::Array(entries.clone()));
+                    }
+                }
+                let sizes: Vec<usize> = (0..1 + rng.below(3)).map(|_| 1 + rng.below(3)).collect();
+                let q = match rng.below(6) {
+                    0 => Value::Object(object(&mut rng, 2, 4)),
+                    1 => value(&mut rng, 2),
+                    _ => {
+                        let spec = GridSpec { sizes, fresh: rng.chance(1, 2), before: rng.below(3), after: rng.below(3), noise: rng.below(2) };
+                        grid_query(&mut rng, &spec).0
+                    }
+                };
+                bld_case(ctx, &Value::Object(cfg), &q, branch);
+                if k % 30 == 4 {
+                    let params = value(&mut rng, 2);
+                    direct_builder_case(ctx, &params, &q);
+                }
+            }
+        }
+    }
+
     ms_case(ctx, &vec![vec![1, 3], vec![2], vec![5, 7, 9]], false);
     ms_case(ctx, &vec![vec![0]], true);
     ms_case(ctx, &vec![vec![0], vec![0], vec![0]], true);
